@@ -22,7 +22,7 @@ theorem loop_complete (names : Array CStr) (s : CStr)
   | ind d ih =>
     unfold searchLoop
     have hlr : left < right := by omega
-    simp only [hlr, if_true]
+    simp only [(gen_loopCond left right).mpr hlr, if_true, gen_middleOf, gen_newRight, gen_newLeft]
     have hm : (left + right) / 2 < names.size := by omega
     simp only [Array.getElem?_eq_getElem hm]
     have hsrc : NoNul names[(left + right) / 2] := hnn _ (by simp)
@@ -37,27 +37,32 @@ theorem loop_complete (names : Array CStr) (s : CStr)
       have hcmp : lexCmp names[(left + right) / 2] s = .lt := by
         have := pw _ _ hm hk hlt; rwa [hks] at this
       have hneg := spec.2.2 hcmp
-      have hnf : ¬ ((strncmp names[(left + right) / 2] s == 0 && nulAt names[(left + right) / 2] s.length) = true) := by
-        rw [spec.1]; simp [hcmp]
-      simp only [hnf]
-      have : ¬ (strncmp names[(left + right) / 2] s ≥ 0) := by omega
+      have hnf : ¬ (Generated.SearchSorted.foundCond (strncmp names[(left + right) / 2] s)
+          (byteAt names[(left + right) / 2] s.length) = true) := by
+        rw [gen_foundCond, spec.1]; simp [hcmp]
+      simp only [hnf, if_false]
+      have : ¬ (Generated.SearchSorted.goLeftCond (strncmp names[(left + right) / 2] s) = true) := by
+        rw [gen_goLeftCond]; omega
       simp only [this, if_false]
       exact ih (right - ((left + right) / 2 + 1)) (by omega) _ _ (by omega) hr hrs rfl
     · -- found
       subst heq
       have hcmp : lexCmp names[(left + right) / 2] s = .eq := by
         rw [lexCmp_eq_iff]; exact hks
-      have hf := spec.1.mpr hcmp
+      have hf : Generated.SearchSorted.foundCond (strncmp names[(left + right) / 2] s)
+          (byteAt names[(left + right) / 2] s.length) = true := (gen_foundCond _ _).mpr (spec.1.mpr hcmp)
       simp only [hf, if_true]
     · -- names[middle] > s : go left
       have hcmp : lexCmp names[(left + right) / 2] s = .gt := by
         have := pw _ _ hk hm hgt
         rw [hks] at this
         exact (lexCmp_lt_iff_gt _ _).mp this
-      have hpos := spec.2.1 hcmp
-      have hnf : ¬ ((strncmp names[(left + right) / 2] s == 0 && nulAt names[(left + right) / 2] s.length) = true) := by
-        rw [spec.1]; simp [hcmp]
-      simp only [hnf, hpos, if_true]
+      have hpos : Generated.SearchSorted.goLeftCond (strncmp names[(left + right) / 2] s) = true :=
+        (gen_goLeftCond _).mpr (spec.2.1 hcmp)
+      have hnf : ¬ (Generated.SearchSorted.foundCond (strncmp names[(left + right) / 2] s)
+          (byteAt names[(left + right) / 2] s.length) = true) := by
+        rw [gen_foundCond, spec.1]; simp [hcmp]
+      simp only [hnf, hpos, if_true, if_false]
       exact ih (((left + right) / 2) - left) (by omega) _ _ hl hgt (by omega) rfl
 
 /-- Whatever the loop returns is an index whose entry equals the searched
@@ -70,7 +75,7 @@ theorem loop_sound (names : Array CStr) (s : CStr)
   | ind d ih =>
     unfold searchLoop at h
     by_cases hlr : left < right
-    · simp only [hlr, if_true] at h
+    · simp only [(gen_loopCond left right).mpr hlr, if_true, gen_middleOf, gen_newRight, gen_newLeft] at h
       cases hget : names[(left + right) / 2]? with
       | none => simp [hget] at h
       | some src =>
@@ -81,18 +86,19 @@ theorem loop_sound (names : Array CStr) (s : CStr)
           rcases Array.getElem?_eq_some_iff.mp hget with ⟨_, e⟩; exact e
         have hsrc : NoNul src := by rw [← hsrc_eq]; exact hnn _ (by simp)
         have spec := cmp_spec src s hsrc hs
-        by_cases hf : (strncmp src s == 0 && nulAt src s.length) = true
+        by_cases hf : Generated.SearchSorted.foundCond (strncmp src s) (byteAt src s.length) = true
         · simp only [hf, if_true] at h
           have : i = (left + right) / 2 := by injection h with h; exact h.symm
           subst this
-          exact ⟨hm, by rw [hsrc_eq]; exact (lexCmp_eq_iff _ _).mp (spec.1.mp hf)⟩
-        · simp only [hf] at h
-          by_cases hge : strncmp src s ≥ 0
+          exact ⟨hm, by rw [hsrc_eq]; exact (lexCmp_eq_iff _ _).mp (spec.1.mp ((gen_foundCond _ _).mp hf))⟩
+        · simp only [hf, if_false] at h
+          by_cases hge : Generated.SearchSorted.goLeftCond (strncmp src s) = true
           · simp only [hge, if_true] at h
             exact ih _ (by omega) _ _ h rfl
           · simp only [hge, if_false] at h
             exact ih _ (by omega) _ _ h rfl
-    · simp [hlr] at h
+    · have : ¬ (Generated.SearchSorted.loopCond left right = true) := fun hh => hlr ((gen_loopCond _ _).mp hh)
+      simp [this] at h
 
 /-- **Completeness**: each declared name resolves to its own entry. -/
 theorem search_complete (names : Array CStr) (s : CStr)
